@@ -234,6 +234,30 @@ pub fn run(thorough: bool) -> Report {
         }
     }
 
+    // (2q) statements that execute nothing: falling onto a REM or DATA line is a call of its own
+    {
+        let menu = quiet_menu();
+        let base = menu.len() as u64;
+        let n = if thorough { 5 } else { 4 };
+        for len in 1..=n {
+            let joins = join_patterns(len, len <= 3);
+            (0..pow(base, len)).into_par_iter().for_each(|i| {
+                let idxs = decode_seq(i, base, len);
+                let seq: Vec<T> = idxs.iter().map(|k| menu[*k].1.clone()).collect();
+                let mut acc = Acc::default();
+                for &j in &joins {
+                    if !layout_is_faithful(&seq, j) {
+                        continue;
+                    }
+                    let prog = layout(&seq, j);
+                    let lines = render_program(&prog);
+                    instrumented(&lines, &[], Some(&prog), false, &mut acc, "grammar program with REM / DATA lines");
+                }
+                merge(&total, acc);
+            });
+        }
+    }
+
     // (2a) the INPUT family with reply scripts: the call that meets INPUT and the call that
     // consumes the reply are one reference step each
     {
@@ -316,6 +340,65 @@ pub fn run(thorough: bool) -> Report {
         }
     }
 
+    // (2c) immediate lines of several statements, typed in every kind of idle state (fresh,
+    // after an error, at a STOP, after a host break while running and while awaiting input):
+    // each call still executes one statement
+    let mut immediate_calls = 0u64;
+    {
+        let l = |s: &str| Ev::Line(s.to_string());
+        let contexts: Vec<(&str, Vec<Ev>)> = vec![
+            ("fresh", vec![]),
+            ("after an error", vec![l("PRINT 1/0")]),
+            ("at a STOP", vec![l("10 X=1: STOP: PRINT X"), Ev::LineToIdle("RUN".into())]),
+            ("after a host break", vec![l("10 FOR I=1 TO 3: PRINT I: NEXT I"), l("RUN"), Ev::Cont, Ev::Break]),
+            ("after a break at an input request", vec![l("10 INPUT Q: PRINT Q"), l("RUN"), Ev::Break]),
+            ("after a run that failed", vec![l("10 PRINT 1/0"), Ev::LineToIdle("RUN".into())]),
+        ];
+        let lines = [
+            "PRINT \"a\": PRINT \"b\": PRINT \"c\"",
+            "FOR K=1 TO 3: NEXT K",
+            "Y=1: IF Y THEN PRINT 1: PRINT 2",
+            "X=1: X=2: X=3: X=4: X=5",
+            "FOR K=1 TO 2: PRINT K: NEXT K: PRINT \"e\"",
+            "REM a: PRINT 1",
+            "DATA 1: READ Z: PRINT Z",
+            "CONT",
+        ];
+        for (cname, setup) in &contexts {
+            for line in lines {
+                let mut s = Sess::new();
+                s.it.enable_tracing = true;
+                let mut hist = vec![];
+                for e in setup {
+                    let _ = s.apply(e);
+                    hist.push(e.clone());
+                }
+                let mut ev = Ev::Line(line.to_string());
+                for _ in 0..60 {
+                    let _ = take_counters();
+                    s.recs.clear();
+                    let r = s.apply(&ev);
+                    hist.push(ev.clone());
+                    let c = take_counters();
+                    immediate_calls += 1;
+                    let prints = s.recs.iter().filter(|r| matches!(r, Rec::Print(_))).count() as u64;
+                    if matches!(r, CallResult::Panic(_)) || c.statements > 1 + c.ifs || prints > 1 {
+                        rep.add(Violation {
+                            signature: format!("immediate line {}: more than one statement in one call", cname),
+                            detail: format!("{:?} typed {}: call {:?} gave {:?} with {} statement entries, {} IF dispatches, {} print records", line, cname, ev, r, c.statements, c.ifs, prints),
+                            case: case_history(&hist, false, true),
+                        });
+                        break;
+                    }
+                    if r != CallResult::Ok || s.state() != InterpreterState::Running {
+                        break;
+                    }
+                    ev = Ev::Cont;
+                }
+            }
+        }
+    }
+
     // (3) hand-back on non-terminating programs
     let mut handback = 0u64;
     for (name, lines) in nonterminating() {
@@ -379,6 +462,7 @@ pub fn run(thorough: bool) -> Report {
         "programs_in_lockstep_with_reference": acc.lockstep_programs,
         "turns_instrumented": acc.turns,
         "handback_boundaries": handback,
+        "immediate_line_calls_instrumented": immediate_calls,
         "break_then_cont_boundaries": cont_calls,
         "max_statement_entries_in_one_call": acc.max_entries,
         "max_work_ratio": acc.max_ratio,
